@@ -12,12 +12,13 @@ log Sync/GC, the expiry check that stops drained groups and destroys a drained p
 and over both shapes `cfg` of the comparison that guards `ResetAppendIndex`.
 Theorems are stated for follower A (fields without suffix); the model is symmetric under `St.swap`
 and the invariant is proved for both followers (`no_holes_b`, `agreement_b`, ... are the B instances).
-Helper lemmas: `LinVerif/Lemmas/C08Log.lean`, `C08Inv.lean`, `C08Step.lean`, `C08Run.lean`, `C08Live.lean`, `C08Sched.lean`, `C08Tok.lean`.
+Helper lemmas: `LinVerif/Lemmas/C08Log.lean`, `C08Inv.lean`, `C08Step.lean`, `C08Run.lean`, `C08Live.lean`, `C08Sched.lean`, `C08Tok.lean`, `C08Plan.lean`.
 -/
 import LinVerif.Lemmas.C08Run
 import LinVerif.Lemmas.C08Live
 import LinVerif.Lemmas.C08Sched
 import LinVerif.Lemmas.C08Tok
+import LinVerif.Lemmas.C08Plan
 import LinVerif.Generated.C08
 
 namespace LinVerif.Props.C08
@@ -1170,9 +1171,125 @@ theorem newGroup_assigns : C08.newGroupAssigns =
      "consumedSeq = int64(metaPage.ReadUint64(consumerGroupConsumedSeqOffset))", "consumedSeq = ackSeq",
      "consumedSeq = ackSeq"] := rfl
 
+/-- **Whole-function tie of IsReady's handshake (round 12).** `C08.handshakePlan` is the decision tree
+re-read from the source of `remoteReplicator.IsReady` on every run (from `r.closeStream()` to every
+`return`: guards, local index formulas, accessor reads, rpcs with their error branches, state-changing
+calls with their argument expressions, the state stored before each return). For EVERY state, EVERY fault
+and every `cfg` run with the regenerated guard shape, the model's `handshake` is the interpretation of
+that tree (`runPlan`, which knows what each primitive means and nothing about order, guards or arguments). -/
+theorem handshake_plan_eq (cfg : Cfg) (hfx : cfg.fixed = C08.aheadFixed) (s : St) (f : Fault) :
+    runPlan C08.handshakePlan s f = some (handshake cfg s f) :=
+  handshake_eq_plan cfg (by rw [hfx]; rfl) s f
+
+/-- hence `IsReady` on a live follower with a channel that is not ready -/
+theorem isReady_plan_eq (cfg : Cfg) (hfx : cfg.fixed = C08.aheadFixed) (s : St) (f : Fault)
+    (hn : s.chan ≠ .ready) (hl : s.live = true) :
+    runPlan C08.handshakePlan s f = some (isReady cfg s f) := by
+  rw [handshake_plan_eq cfg hfx]
+  simp [isReady, hn, hl]
+
+/-- **Whole-function tie of `remoteReplicator.Replica` (round 12).** `C08.replicaPlan idx` is the decision tree
+re-read from the source of `Replica(idx, msg)` on every run (Send with its error branch, Recv with its error
+branch, the test on the answer incl. `resp.Err`, `SetAckIndex` with its argument, the state stored on each
+path). For EVERY state, index, message and fault the model's `replicaSend` — run with the regenerated shape of
+the else-branch — leaves the state the interpretation of that tree leaves. -/
+theorem replica_plan_eq (cfg : Cfg) (hm : cfg.mfail = C08.mismatchSetsFailure) (s : St) (idx : Int) (m : Msg) (f : Fault) :
+    runSend m (C08.replicaPlan idx) s none f = some (replicaSend cfg s idx m f).1 :=
+  replicaSend_eq_plan cfg (by rw [hm]; rfl) s idx m f
+
 end Tie
 
+/-- **The regenerated `Replica` acknowledges only what the follower appended** (every state, index, message,
+fault — no reachability needed): interpreting the tree read from `Replica`'s source, the group's ack moves only
+to the sent index, and only when the follower appended exactly this message at exactly that position. -/
+theorem plan_replica_ack_sound (s s' : St) (idx : Int) (m : Msg) (f : Fault)
+    (h : runSend m (LinVerif.Generated.C08.replicaPlan idx) s none f = some s') (hg : s'.gack ≠ s.gack) :
+    s'.gack = idx ∧ idx = s.F.app + 1 ∧ s'.F = s.F.put m := by
+  rw [Tie.replica_plan_eq { fixed := true, mfail := true, wake := true } rfl] at h
+  have h' := Option.some.inj h
+  subst h'
+  revert hg
+  unfold replicaSend replicaLog ackGroup
+  by_cases h1 : s.stream ≠ .up ∨ f = .send
+  · simp [h1]
+  have hs : s.stream = .up := Classical.byContradiction fun h => h1 (Or.inl h)
+  have hf : f ≠ .send := fun h => h1 (Or.inr h)
+  by_cases h2 : f = .recv
+  · subst h2; simp [hs]
+  by_cases hc : s.closed = true
+  · simp [hs, hf, h2, hc]
+  by_cases hi : idx = s.F.app + 1
+  · by_cases hp : f = .put
+    · subst hp; simp [hs, hc, hi]
+    · simp [hs, hf, h2, hc, hi, hp]
+      split <;> simp
+  · simp [hs, hf, h2, hc, hi]
+    have : ¬ (s.F.app + 1 = idx) := fun h => hi h.symm
+    simp [this]
+
+/-- **The regenerated handshake meets the handshake's post-condition** (every event sequence, every fault):
+whenever the decision tree read from IsReady's source, interpreted on a reachable state with a live follower
+and a channel that is not ready, returns true, the channel is ready and the leader's next replica index =
+the follower's next index = max(follower's next index before, group ack + 1) — "resumes from the first
+position the follower lacks and the leader still holds". -/
+theorem plan_resync_handshake (cfg : Cfg) (hfx : cfg.fixed = LinVerif.Generated.C08.aheadFixed)
+    (evs : List Ev) (f : Fault) (s' : St)
+    (hn : (run cfg evs).chan ≠ .ready) (hl : (run cfg evs).live = true)
+    (h : runPlan LinVerif.Generated.C08.handshakePlan (run cfg evs) f = some (s', true)) :
+    s'.chan = .ready ∧ s'.cons + 1 = s'.F.app + 1 ∧
+      s'.cons + 1 = max ((run cfg evs).F.app + 1) ((run cfg evs).gack + 1) := by
+  rw [Tie.isReady_plan_eq cfg hfx _ f hn hl] at h
+  have h' : isReady cfg (run cfg evs) f = (s', true) := Option.some.inj h
+  have hok : (isReady cfg (run cfg evs) f).2 = true := by rw [h']
+  have := resync_handshake cfg evs f hn hok
+  rw [h'] at this
+  exact this
+
+/-- **The regenerated handshake is sound** (every event sequence, every fault, whatever the channel state):
+interpreting the decision tree read from IsReady's source on a reachable state never lowers the group's
+ack, moves it only to a position the follower has appended (`SetAckIndex(remoteLastReplicaAckIdx)`), leaves
+the follower's log alone unless the follower is behind the ack (the Reset branch), leaves the leader's log
+alone unless the follower is ahead of it (the ResetAppendIndex branch), and a result `false` leaves the
+channel in `failure` (the next loop iteration runs the handshake again). -/
+theorem plan_handshake_sound (cfg : Cfg) (hfx : cfg.fixed = LinVerif.Generated.C08.aheadFixed)
+    (evs : List Ev) (f : Fault) (s' : St) (b : Bool)
+    (h : runPlan LinVerif.Generated.C08.handshakePlan (run cfg evs) f = some (s', b)) :
+    (run cfg evs).gack ≤ s'.gack ∧
+    (s'.gack ≠ (run cfg evs).gack → s'.gack ≤ s'.F.app) ∧
+    (¬ ((run cfg evs).F.app < (run cfg evs).gack) → s'.F = (run cfg evs).F) ∧
+    ((run cfg evs).F.app ≤ (run cfg evs).L.app → s'.L = (run cfg evs).L) ∧
+    (b = false → s'.chan = .failure) := by
+  rw [Tie.handshake_plan_eq cfg hfx] at h
+  have h' : handshake cfg (run cfg evs) f = (s', b) := Option.some.inj h
+  have hs := handshake_spec cfg (run cfg evs) f (full_run cfg evs).a
+  rw [h'] at hs
+  exact ⟨hs.gmono, hs.ackok, hs.fkeep, hs.lkeep, hs.fail⟩
+
 /-! ## 6. non-vacuity -/
+
+/-- `plan_replica_ack_sound`'s hypotheses are satisfiable: a synced channel with one message pending, consumed
+and offered at index 1 — the regenerated tree of `Replica` moves the ack 0 -> 1 -/
+example :
+    ∃ s', runSend [2] (LinVerif.Generated.C08.replicaPlan 1)
+        (consume (run { fixed := true, mfail := true, wake := true } [.append [1], .step .a .none, .append [2]])).1 none .none = some s' ∧
+      s'.gack = 1 ∧
+      (consume (run { fixed := true, mfail := true, wake := true } [.append [1], .step .a .none, .append [2]])).1.gack = 0 :=
+  ⟨_, Tie.replica_plan_eq { fixed := true, mfail := true, wake := true } rfl _ _ _ _, by decide, by decide⟩
+
+/-- `plan_resync_handshake`'s hypotheses are satisfiable in the rarely taken region: a message consumed by
+the leader and never acknowledged (request lost) AND a follower that came back without its log — the
+"follower behind the ack" branch with `consumed = ack + 1`: the follower is reset to ack + 1 = 1 (not to the
+leader's current replica index 2), so position 1 is sent again. -/
+example :
+    let cfg : Cfg := { fixed := true, mfail := true, wake := true }
+    let s := run cfg [.append [1], .append [2], .step .a .none, .step .a .send, .flose .a]
+    s.chan ≠ .ready ∧ s.live = true ∧ s.cons = 1 ∧ s.gack = 0 ∧ s.F.app = -1 ∧
+    (∃ s', runPlan LinVerif.Generated.C08.handshakePlan s .none = some (s', true) ∧
+      s'.cons + 1 = 1 ∧ s'.F.app + 1 = 1) := by
+  refine ⟨by decide, by decide, by decide, by decide, by decide, ?_⟩
+  rw [Tie.handshake_plan_eq { fixed := true, mfail := true, wake := true } rfl]
+  exact ⟨_, rfl, by decide, by decide⟩
+
 
 /-- a history with a lost request and a follower restart that ends synced with follower A
 holding two positions, while follower B got everything -/
